@@ -353,3 +353,47 @@ CONTRACTS["programs:Program.sample"] = dict(
     call_stubs={"self.%s.sample" % n: _ghost_series_sample for n in _PROG_SERIES},
     ensures=[("C17.each_series_of_the_program_becomes_its_own_sample", " and ".join("self.%s.SAMPLE_OF is OLD_%s and self.%s.CONSTANT == constant" % (n, n, n) for n in _PROG_SERIES))],
     defined_props=["C17"])
+
+
+# ---- Project.run_sampled_sims (C17): the wiring around _run_sampled_sim.  n samples are n calls of _run_sampled_sim (serially), or one job per sample handed to
+# parallel_progress (in parallel), each given the SOURCE parameter set and program set (the draw happens inside, see above) and the same instructions and names
+def _env_rss(parallel, with_programs):
+    def make(it):
+        from pyvc.interp import PyObjV
+        from pyvc.core import Opaque
+        from pyvc import source
+
+        ps, pg = PyObjV("ParameterSet", source.load("parameters"), {"name": "source parset"}), (PyObjV("ProgramSet", source.load("programs"), {"name": "source progset"}) if with_programs else None)
+        ins = PyObjV("ProgramInstructions", source.load("programs"), {"start_year": 2020.0}) if with_programs else None
+        return {"self": PyObjV("Project", source.load("project"), {"name": "proj", "CALLS": [], "JOBS": []}), "n_samples": 3, "parset": "default", "progset": ("progs" if with_programs else None), "progset_instructions": ins,
+                "result_names": None, "parallel": parallel, "max_attempts": None, "num_workers": 2, "PS": ps, "PG": pg, "INS": ins, "INFO_LEVEL": 20, "LEVEL": 30}
+
+    return make
+
+
+def _ghost_run(it, proj, parset, progset, progset_instructions, result_names, max_attempts=None):
+    proj.fields["CALLS"].append((parset, progset, progset_instructions, result_names, max_attempts))
+    return "result %d" % len(proj.fields["CALLS"])
+
+
+def _ghost_partial(it, fn, **kw):
+    return ("partial", kw)
+
+
+def _ghost_parallel(it, fcn, inputs, show_progress=True, num_workers=None):
+    it.live_env["self"].fields["JOBS"].append((fcn, inputs, num_workers))
+    return ["job result"] * inputs
+
+
+_rss_stubs = {"self.parset": (lambda it, name: it.live_env["PS"]), "self.progset": (lambda it, name: it.live_env["PG"]), "sc.promotetolist": (lambda it, x, keepnone=False: x if isinstance(x, list) else [x]),
+              "logger.getEffectiveLevel": (lambda it: 30), "_run_sampled_sim": _ghost_run, "functools.partial": _ghost_partial, "parallel_progress": _ghost_parallel}
+for _par in (False, True):
+    for _wp in (False, True):
+        _each = "c[0] is PS and c[1] is PG and len(c[2]) == 1 and c[2][0] is INS and c[3] == ['default'] and c[4] is None"
+        CONTRACTS["project:Project.run_sampled_sims#%s_%s" % ("parallel" if _par else "serial", "with_programs" if _wp else "parameters_only")] = dict(
+            schema=schema, make_env=_env_rss(_par, _wp), call_stubs=_rss_stubs, stubs={"logging.INFO": "INFO_LEVEL", "logger.getEffectiveLevel()": "LEVEL"},
+            ensures=[("C17.one_sampled_run_per_sample_each_given_the_source_sets",
+                      ("len(self.JOBS) == 1 and self.JOBS[0][1] == 3 and self.JOBS[0][2] == 2 and len(self.CALLS) == 0 and len(result) == 3 and self.JOBS[0][0][1]['proj'] is self and self.JOBS[0][0][1]['parset'] is PS and self.JOBS[0][0][1]['progset'] is PG "
+                       "and self.JOBS[0][0][1]['progset_instructions'][0] is INS and self.JOBS[0][0][1]['result_names'] == ['default']") if _par else
+                      ("len(self.CALLS) == 3 and len(self.JOBS) == 0 and all(%s for c in self.CALLS) and result == ['result 1', 'result 2', 'result 3']" % _each))],
+            defined_props=["C17"])
